@@ -44,6 +44,15 @@ CHECKS = {
     "C18": dict(cat="exploration", tech=E_IN, ref="DESIGN.md 4/C18",
                 text="All rank tables -> {0..3} over 1 and 2 atoms and a stated family over 3 atoms (thorough: all 6561 tables -> {0..2}) x every formula / conditional / proper atom subset / layer numbering of the families: formula_rank, conditional_acceptance, marginalize, both conditionalisations, ranks2tpo/tpo2ranks against the five laws evaluated by brute force; custom and System Z objects.",
                 note="Signatures of 1-3 atoms only."),
+    "C09": dict(cat="exploration", tech="bounded-exhaustive computation of complete inference relations over all 16x16 truth functions, then every postulate instance evaluated on the table (no oracle)", ref="DESIGN.md 4/C09",
+                text="Per base and operator/back-end/mode the complete inference relation over the 256 pairs of truth functions of two atoms (+128 queries in secondary syntactic forms) is computed and every instance of REF, SC, LLE, RW, AND, OR, CM, CUT (16^3 tuples), (Bottom|A) only for unsatisfiable A, and RM for Z/lex is checked; direct inference on two-atom scopes, three-atom structure representatives and the shipped corpora up to 20 atoms (thorough 60).",
+                note="Postulate instances range over formulas of two atoms only; compares the implementation with itself."),
+    "C11": dict(cat="exploration", tech="bounded-exhaustive differential exploration across all selectable MaxSAT back-ends / SAT engines", ref="DESIGN.md 4/C11",
+                text="System W and lex_inf under z3, rc2 and rc2-<engine> (quick: g3, cd19, m22, mcb; thorough: every engine a run-time probe finds usable), c-inference under every rc2 engine, both modes, on structure representatives over two and three atoms and on shipped corpora; answers (and exceptions) must be identical across back-ends.",
+                note="Engines without an installed binding cannot be explored (listed in the evidence). Compares the implementation with itself."),
+    "C12": dict(cat="exploration", tech="bounded-exhaustive metamorphic exploration over a finite transformation menu (keys, order, renaming, signature, equivalence rewrites)", ref="DESIGN.md 4/C12",
+                text="Every transformation of the menu (key maps incl. 0-based / sparse / all permutations, all dict orders, atom permutations and fresh names, signature reversal / extension, seven equivalence-preserving rewrites of base or query, selected pairs) applied to structure representatives over two and three atoms x all operator/back-end/mode combinations; the answer vector must equal the canonical presentation's.",
+                note="Non-negative integer keys only. Compares the implementation with itself."),
 }
 
 NOT_YET = "check under construction in this session (see DESIGN.md section 4 for the planned exploration)"
